@@ -239,6 +239,7 @@ class Engine:
     self.quick_prune = quick_prune
     self.max_paths = 4000
     self.on_empty_list = None  # script hook: what `[]` allocates
+    self.on_empty_dict = None  # script hook: what `{}` allocates
     self.sources = []  # repo files whose module-level names are visible
     self._gcache = {}
     self.stats = {'paths': 0}
@@ -660,6 +661,8 @@ class Engine:
     return self._dict_from(ctx, e)
 
   def _dict_from(self, ctx, e, first=None):
+    if not e.keys and getattr(self, 'on_empty_dict', None) is not None:
+      return self.on_empty_dict(ctx)
     d = DictCell()
     ref = ctx.alloc(d)
     for i, (k, v) in enumerate(zip(e.keys, e.values)):
